@@ -53,7 +53,7 @@ class CtrlSpec(UlpiSpec):
     def assumptions(self):
         return ["the PHY's Function Control / OTG Control registers hold their ULPI reset values 0x41 / 0x06 after reset and change only by completed register writes",
                 "PHY outputs are registered; the PHY raises DIR only on an idle bus or to abort a command that has not completed (not inside a transmit packet, not in the STP cycle of a register write: ULPI delays the receive there)",
-                "a register write the link starts later than 4 quiet idle-bus cycles after the request matched the PHY register again would be flagged (the design starts it in the cycle of the mismatch)",
+                "a register write the link starts later than 8 quiet idle-bus cycles after the request matched the PHY register again would be flagged (the design starts it in the cycle of the mismatch)",
                 "convergence is demanded within 64 cycles of a benign PHY (a worst-case chain of DIR release, packet end and three register writes takes about 35)",
                 "the UTMI transmitter follows UTMI (see C23)"]
 
